@@ -66,11 +66,15 @@ ODD = ['a b', 'Ünï', '1st', 'class', 'None', 'x-y!', '']
 CMP = ['==', '!=', '<', '<=', '>', '>=', 'in', 'not in', 'is', 'is not']
 BIN = ['+', '-', '*', '/', '%']
 CONSTS = ['1', '0', '2.5', '"x"', "'New'", 'True', 'False', 'None', '""', u'"日本"', '[1, 2]', '("a", "b")', 'OWNER']
-BAD = ['+ rec.{X} ==', 'rec.{X} = 1', 'rec.{X} and (', '${X} ${X}', 'rec.{X}[0] == 1', '-rec.{X} < 0',
-       '1 < rec.{X} < 3', 'lambda: rec.{X}', '[c for c in rec.{X}]', '{{rec.{X}: 1}}', 'rec.{X} if ${X} else 0',
-       'rec.{X} ** 2', 'rec.{X} // 2', 'f"{{rec.{X}}}" == "a"', 'rec.{X} == "unterminated', 'not',
-       'rec.{X} or choice.{X} +', '(rec.{X} := 1)', 'user.{A}.{X}[1:]', 'rec.{X} == 1;', '~$' '{X}',
-       '$' '{X} == *rec.{X}']
+# texts outside the supported subset: the first group is valid Python (unsupported node types), the second is
+# rejected by the Python parser itself
+BAD_UNSUPPORTED = ['rec.{X}[0] == 1', '-rec.{X} < 0', '1 < rec.{X} < 3', 'lambda: rec.{X}', '[c for c in rec.{X}]',
+                   '{{rec.{X}: 1}}', 'rec.{X} if ${X} else 0', 'rec.{X} ** 2', 'rec.{X} // 2',
+                   'f"{{rec.{X}}}" == "a"', '(rec.{X} := 1)', 'user.{A}.{X}[1:]', '~$' '{X}',
+                   '+ "New" in choice.{X} and ${X} == rec.{X}', 'rec.{X} = 1', 'rec.{X} == 1;', 'newRec.{X} @ 2']
+BAD_PYTHON = ['+ rec.{X} ==', 'rec.{X} and (', '${X} ${X}', 'rec.{X} == "unterminated', 'not',
+              'rec.{X} or choice.{X} +', '$' '{X} == *rec.{X}']
+BAD = BAD_UNSUPPORTED + BAD_PYTHON
 
 RECVARS = {'acl': ('rec', 'newRec'), 'dropdown': ('rec',), 'trigger': ('rec', 'oldRec')}
 
@@ -209,8 +213,12 @@ for _b in BAD:
 # ---------------------------------------------------------------------------
 # strategy: expression trees
 
+# column selectors are biased towards the first columns of each table so that renames and references meet
+_SEL = st.sampled_from([0, 0, 0, 0, 1, 1, 1, 2, 2, 3, 4, 5, 6, 7])
+
+
 def expr_strategy():
-  ref = st.tuples(st.just('ref'), st.integers(0, 15), st.integers(0, 9), st.integers(0, 3)).map(list)
+  ref = st.tuples(st.just('ref'), st.integers(0, 15), _SEL, st.integers(0, 3)).map(list)
   const = st.tuples(st.just('const'), st.integers(0, len(CONSTS) - 1)).map(list)
   leaf = st.one_of(ref, ref, ref, const)
   def ext(ch):
@@ -223,20 +231,20 @@ def expr_strategy():
       st.tuples(st.just('call'), st.integers(0, 4), ch).map(list),
       st.tuples(st.just('paren'), ch).map(list))
   tree = st.recursive(leaf, ext, max_leaves=8)
-  good = st.tuples(st.just('top'), tree, st.integers(0, 7), st.integers(0, 4)).map(list)
-  bad = st.tuples(st.just('bad'), st.integers(0, len(BAD) - 1), st.integers(0, 9)).map(list)
-  return st.one_of(good, good, good, good, bad)
+  # badsel: 0..87 -> generated expression; 88..97 -> unsupported-but-valid-Python text; 98..99 -> Python syntax error
+  badsel = st.sampled_from(list(range(100)))
+  return st.tuples(st.just('top'), tree, st.integers(0, 7), st.integers(0, 4), badsel, _SEL).map(list)
 
 
 def strategy(tier):
   e = expr_strategy()
   sel = st.integers(0, 99)
-  rename = st.fixed_dictionaries({'what': st.integers(0, 19), 'ent': sel, 'ent2': sel, 'path': st.integers(0, 7),
+  rename = st.fixed_dictionaries({'what': st.integers(0, 19), 'ent': _SEL, 'ent2': _SEL, 'path': st.integers(0, 7),
                                   'tk': st.integers(0, 5), 'ti': st.integers(0, 9)})
   return st.fixed_dictionaries({
     'tn': st.lists(st.integers(0, len(TABLE_POOL) - 1), min_size=3, max_size=3),
     'cn': st.lists(st.integers(0, len(COL_POOL) - 1), min_size=15, max_size=15),
-    'attrs': st.lists(st.tuples(st.integers(0, 2), st.integers(0, 5), sel).map(list), min_size=1, max_size=2),
+    'attrs': st.lists(st.tuples(st.integers(0, 2), st.integers(0, 5), _SEL).map(list), min_size=1, max_size=2),
     'resources': st.lists(st.tuples(st.integers(0, 3), st.integers(0, 255)).map(list), min_size=1, max_size=3),
     'rules': st.lists(st.tuples(sel, e).map(list), min_size=1, max_size=4),
     'dropdowns': st.lists(st.tuples(st.integers(0, 5), st.integers(0, 2), e).map(list), min_size=0, max_size=3),
@@ -318,12 +326,15 @@ def render(rc, node, ml=False):
 def render_top(rc, node):
   """-> (text, is_bad)"""
   cols = rc.self_cols or rc.other_cols
-  if node and node[0] == 'bad':
-    X = cols[abs(int(node[2])) % len(cols)]
-    A = rc.attrs[0] if rc.attrs else 'School'
-    return BAD[abs(int(node[1])) % len(BAD)].format(X=X, A=A), True
   if not node or node[0] != 'top':
     return 'True', False
+  node = (list(node) + [0, 0, 0, 0, 0])[:6]
+  badsel = abs(int(node[4])) % 100
+  if badsel >= 88:
+    X = cols[abs(int(node[5])) % len(cols)]
+    A = rc.attrs[0] if rc.attrs else 'School'
+    pool = BAD_PYTHON if badsel >= 98 else BAD_UNSUPPORTED
+    return pool[(badsel + abs(int(node[2])) * 7) % len(pool)].format(X=X, A=A), True
   e, ci, layout = node[1], abs(int(node[2])), abs(int(node[3])) % 5
   X = cols[ci % len(cols)]
   comment = ['', '# %s' % X, u'# ünîcødé %s' % X, '# rec.%s must stay' % X, '# $%s' % X, '', '# "', '#'][ci % 8]
@@ -607,6 +618,12 @@ def resolve_rename(stt, obs, spec):
     return uas, ['rename:table-' + role, 'path:' + ['RenameTable', 'meta-tableId'][path]]
   role = ['T', 'T', 'T', 'R', 'R', 'U'][what % 6]
   ents = [(role, c) for c in stt['cols'][role]]
+  if what % 4:
+    # prefer columns whose current id occurs in some stored formula (so that the rename meets a reference)
+    texts = ' '.join(f['text'] for f in formulas_of(obs).values())
+    words = set(re.findall(r'[A-Za-z_][A-Za-z_0-9]*', texts))
+    hot = [e for e in ents if obs['cols'][stt['cref'][e]]['colId'] in words]
+    ents = hot or ents
   allents = [(r_, c) for r_ in roles for c in stt['cols'][r_]]
   ent = ents[abs(int(spec.get('ent') or 0)) % len(ents)]
   ref = stt['cref'][ent]
@@ -654,6 +671,13 @@ def judge(stt, before, after, reply, out, uas):
   fb, fa = formulas_of(before), formulas_of(after)
   if not reply.ok:
     out.cls('rejected')
+    if isinstance(reply.error, SyntaxError) and any(parse_indep(f['text']) is None for f in fb.values()):
+      # process_renames() calls get_dollar_replacer() outside its try block
+      out.fail('C17:rename-raises-SyntaxError-on-unparsable-formula',
+               'rename %r raised %r: a stored formula that Python cannot parse (%r) makes every column rename fail '
+               'instead of being left untouched' % (uas, reply.error,
+                                                    [f['text'] for f in fb.values() if parse_indep(f['text']) is None][:2]))
+      return False
     if fb != fa and any(fb[k]['text'] != fa.get(k, {}).get('text') for k in fb):
       out.fail('C17:rejected-rename-left-changes', 'rename %r was rejected (%r) but stored formulas changed' % (
         uas, reply.error))
